@@ -234,8 +234,8 @@ def judge_run(ctx, fe, opts, tb, contexts, res, err, witness_base):
                       {**witness_base, "extra": [(res[i].stream_id, [x.test for x in res[i].results]) for i in extra]})
     leftover = [e for e in events if e["ev"] in ("probe", "spy") and not e.get("_used") and "raised" not in e]
     if leftover:
-        ctx.violation(f"C05:{label}:test-invoked-more-than-once",
-                      {**witness_base, "unexpected_invocations": len(leftover)})
+        # not a violation of the statement (which speaks about the flags reported), only recorded
+        ctx.count("c05.extra_test_invocations_observed", len(leftover))
 
 
 def fe_variants(ctx, tb, single_stream):
